@@ -13,10 +13,10 @@ from .. import prog as PG
 FWD_FAMILIES = PG.FAMILIES_ALL + PG.FAMILIES_FWD_ONLY
 FWD_SINGLE = ['un', 'kink', 'special', 'unp', 'unfwd', 'bin', 'bcast', 'binc', 'pow', 'powreg', 'neg', 'abs', 'minmax', 'get', 'T', 'reshape', 'buf', 'set',
               'rmw', 'sum', 'prod', 'trace', 'dot', 'dotc', 'dotnd', 'outer', 'inv', 'solve', 'det', 'logdet', 'expm', 'qr', 'chol', 'eigh',
-              'svd', 'svdfull', 'lu', 'fft', 'tile', 'diag', 'tri', 'symvec', 'vecsym', 'cplx', 'umax', 'iop', 'solvec', 'shift', 'rpowc', 'eighraw']
+              'svd', 'svdfull', 'lu', 'fft', 'tile', 'diag', 'tri', 'symvec', 'vecsym', 'cplx', 'bufdet', 'umax', 'iop', 'solvec', 'shift', 'rpowc', 'eighraw']
 REV_SINGLE = ['un', 'kink', 'special', 'unp', 'bin', 'bcast', 'binc', 'pow', 'neg', 'get', 'T', 'reshape', 'buf', 'set', 'rmw', 'sum', 'prod', 'trace',
               'dot', 'dotc', 'outer', 'inv', 'solve', 'det', 'logdet', 'qr', 'chol', 'eigh', 'svd', 'lu', 'fft', 'tile', 'diag',
-              'symvec', 'vecsym', 'cplx']
+              'symvec', 'vecsym', 'cplx', 'bufdet']
 CHEAP_TAIL = ['un', 'bin', 'binc', 'neg', 'get']
 
 
